@@ -36,7 +36,7 @@ ALSO = {
 }
 
 n = 0
-for wave, src in (('2', 'wave2_meta.json'), ('3', 'wave3_meta.json'), ('4', 'wave4_meta.json'), ('5', 'wave5_meta.json')):
+for wave, src in (('2', 'wave2_meta.json'), ('3', 'wave3_meta.json'), ('4', 'wave4_meta.json'), ('5', 'wave5_meta.json'), ('6', 'wave6_meta.json')):
     M = json.load(open(os.path.join(ROOT, src)))
     for k, v in sorted(M.items()):
         d = os.path.join(ROOT, k)
